@@ -260,7 +260,7 @@ func (ch c02) Run(c *core.Ctx) {
 		strict(conn, "handler programs "+trim(shapes, 200), cs)
 	}
 	// (b) hostile client input
-	canon := c04canonical(core.NewRng(c.Seed, "C04canon", 0, 0), 16)
+	canon := c04canonical(core.NewRng(c.Seed, "C04canon", 0, 0), 17)
 	for i := 0; i < nhost; i++ {
 		if !c.Begin(1000000+i) || c.NViol() >= 10 {
 			continue
@@ -438,6 +438,36 @@ func (ch c02) Run(c *core.Ctx) {
 			strict(conn, fmt.Sprintf("error quoting a query text of %d bytes after a Bind of the same size", n), map[string]any{"workload": "echoed query text", "bytes": n})
 		}
 		envBig.Stop()
+	}
+	// (i) errors whose code the handler chose freely (an upstream code passed on, a short class code, no
+	// code at all, an over-long one): whatever is sent as the code, the message stays one list of fields
+	// closed by one zero byte
+	if c.Batch == 3%ch.Batches(c.Tier) && c.Begin(3800000) {
+		pg.AnySQLState = true
+		for i, code := range []string{"", "4", "42", "P1", "0A0", "0A00", "42P0", "X", "123456", "42601x", "ABCDEFGHIJ", "42\t01"} {
+			for v := 0; v < 2; v++ {
+				spec := &hs.ErrSpec{Base: "odd code", Wraps: []hs.Wrap{{K: 'c', S: code}, {K: 'h', S: "hint after the code"}, {K: 'd', S: "detail"}}}
+				if v == 1 {
+					spec.Wraps = []hs.Wrap{{K: 's', S: "WARNING"}, {K: 'c', S: code}, {K: 'o', S: "file.go", Line: 7, Fn: "fn"}}
+				}
+				prog := &hs.Prog{Stmts: []*hs.Stmt{{ID: "oc", Ops: []hs.Op{{K: "err", Err: spec}}}}}
+				conn := env.Dial(&hs.Sess{Default: func(string) *hs.Prog { return prog }})
+				conn.NoLog = true
+				in := append(pg.Startup([][2]string{{"user", "u"}}), pg.Query("oc")...)
+				in = append(in, append(append(append(pg.Parse("", "oc", nil), pg.Bind("", "", nil, nil, nil)...), pg.Execute("", 0)...), pg.Sync()...)...)
+				conn.Send(append(in, pg.Terminate()...))
+				conn.CloseWrite()
+				if !conn.WaitClosed() {
+					pg.AnySQLState = false
+					c.Inconclusive("connection did not close (C02 odd-code workload)")
+					return
+				}
+				c.Count("errors_with_freely_chosen_codes", 1)
+				c.Eval(fmt.Sprintf("odd code %d.%d", i, v), true)
+				strict(conn, fmt.Sprintf("error whose code is %q", code), map[string]any{"code": code, "variant": v})
+			}
+		}
+		pg.AnySQLState = false
 	}
 	// (f) writes interrupted half-way: the k-th transport Write of a canonical session takes half of its
 	// bytes and returns a temporary (timeout) error, for every k. Whether the server gives the connection
